@@ -257,10 +257,10 @@ def rule_d(ctx: Context, R: Reporter, syst: FuncInfo):
 
 def run(ctx: Context, R: Reporter):
     fi = systematic_fn(ctx)
-    rule_a(ctx, R, fi)
-    rule_b(ctx, R, fi)
-    rule_c(ctx, R, fi)
-    rule_d(ctx, R, fi)
+    R.guard(rule_a, ctx, R, fi)
+    R.guard(rule_b, ctx, R, fi)
+    R.guard(rule_c, ctx, R, fi)
+    R.guard(rule_d, ctx, R, fi)
 
 
 def variants():
